@@ -253,7 +253,7 @@ fn culprit_symbol(info: &PatInfo, v: &(i64, u32, u32, i32)) -> String {
 pub fn run(ctx: &Ctx) -> PropResult {
     let mut wls = vec![];
     for (name, kind, q, t) in [("datetime_roundtrips", Kind::DateTime, 200_000u64, 8_000_000u64), ("date_roundtrips", Kind::Date, 60_000, 2_000_000), ("time_roundtrips", Kind::Time, 60_000, 2_000_000)] {
-        wls.push(Workload::cases(name, ctx.n(q, t), move |rec, _, rng| {
+        wls.push(Workload::cases(name, ctx.count(q, t), move |rec, _, rng| {
             let (i, off) = gen_fmt_value(rng);
             let off = if kind == Kind::Date { 0 } else { off };
             let v = val_of(kind, i, off);
@@ -262,7 +262,7 @@ pub fn run(ctx: &Ctx) -> PropResult {
             judge(rec, kind, i, off, &info);
         }));
     }
-    wls.push(Workload::cases("canonical_patterns", ctx.n(40_000, 1_000_000), |rec, idx, rng| {
+    wls.push(Workload::cases("canonical_patterns", ctx.count(40_000, 1_000_000), |rec, idx, rng| {
         // the patterns people actually write, incl. Display / FromStr / RFC 3339 shapes
         const PATS: [(&str, Kind); 10] = [
             ("yyyy-MM-dd HH:mm:ss", Kind::DateTime),
